@@ -159,8 +159,12 @@ def DD.selfAdd (x : DD) (yhi ylo : Dy) : DD :=
 /-- `operator+(DD, DD)` -/
 def DD.add (x y : DD) : DD := DD.selfAdd rnd x y.hi y.lo
 
-/-- `operator-(DD, DD)`: `selfAdd(-1*d.hi, -1*d.lo)` (multiplication by -1 is exact) -/
-def DD.sub (x y : DD) : DD := DD.selfAdd rnd x (Dy.neg y.hi) (Dy.neg y.lo)
+/-- the `double` value of the `int` literal `-1` in `-1*d.hi` -/
+def negOne : Dy := ⟨-1, 0⟩
+
+/-- `operator-(DD, DD)` = `DD::selfSubtract(const DD&)`: `selfAdd(-1*d.hi, -1*d.lo)` — two `double`
+multiplications by `-1.0` (exact on every representable operand, see `fmul_negOne` in Proofs/Kernel/DDGrid) -/
+def DD.sub (x y : DD) : DD := DD.selfAdd rnd x (fmul rnd negOne y.hi) (fmul rnd negOne y.lo)
 
 /-- `DD::selfMultiply(double yhi, double ylo)` -/
 def DD.selfMultiply (x : DD) (yhi ylo : Dy) : DD :=
